@@ -116,3 +116,34 @@ GROUPS['c29ui'] = dict(
              K29('cylinderAlongX', 2, 'ui_cylinderAlongX', 'UnitInertia::cylinderAlongX({0},{1}).asSymMat33()'),
              K29('brick', 3, 'ui_brick', 'UnitInertia::brick({0},{1},{2}).asSymMat33()'),
              K29('ellipsoid', 3, 'ui_ellipsoid', 'UnitInertia::ellipsoid({0},{1},{2}).asSymMat33()')])
+# ---- C37: friction-coefficient helpers of CompliantContactSubsystem.cpp (file-static inline functions; the TU includes the .cpp) ----
+import os as _os37
+_CCS_CPP37 = 'Simbody/src/CompliantContactSubsystem.cpp'
+_TU37 = '#include "Simbody.h"\n#include "%s/%s"' % (_os37.environ.get('VERIF_REPO', '/repo'), _CCS_CPP37)
+def K37(name, n, coq):
+    args = ','.join('{%d}' % i for i in range(n))
+    return dict(name=name, nparams=n, coq=coq, cxx='SimTK::%s(%s)' % (name, args))
+GROUPS['c37'] = dict(
+    source=_CCS_CPP37, tu=_TU37, filter='step5', more_filters=['hollars'], container=('free', None),
+    kernels=[K37('step5', 1, 'k37_step5'), K37('step5d', 3, 'k37_step5d'), K37('hollars', 4, 'k37_hollars')])
+
+# ---- C25 (fixed-size part): SmallMatrixMixed.h free function templates: 3x3 det / inverse (Mat and SymMat), cross products ----
+SMM_H = 'SimTKcommon/SmallMatrix/include/SimTKcommon/internal/SmallMatrixMixed.h'
+def K25(name, n, coq, sig, cxx, **kw):
+    d = dict(name=name, nparams=n, coq=coq, sig=sig, cxx=cxx); d.update(kw); return d
+GROUPS['sm25c'] = dict(
+    source=SMM_H, tu='#include "SimTKcommon.h"', filter='SimTK::cross', container=('free', None),
+    kernels=[K25('cross', 2, 'k25_cross', '(const Vec<3, E1, S1> &, const Vec<3, E2, S2> &)', 'SimTK::cross({0},{1})'),
+             K25('cross', 2, 'k25_cross_vs', '(const Vec<3, EV, SV> &, const SymMat<3, EM, RS> &)', 'SimTK::cross({0},{1})'),
+             K25('cross', 2, 'k25_cross_sv', '(const SymMat<3, EM, RS> &, const Vec<3, EV, SV> &)', 'SimTK::cross({0},{1})'),
+             K25('cross', 2, 'k25_cross2', 'Mul (const Vec<2, E1, S1> &, const Vec<2, E2, S2> &)', 'SimTK::cross({0},{1})'),
+             K25('crossMat', 1, 'k25_crossMat', 'Mat<3, 3, E> (const Vec<3, E, S> &)', 'SimTK::crossMat({0})'),
+             K25('crossMatSq', 1, 'k25_crossMatSq', 'SymMat<3, E> (const Vec<3, E, S> &)', 'SimTK::crossMatSq({0})')])
+GROUPS['sm25d'] = dict(
+    source=SMM_H, tu='#include "SimTKcommon.h"', filter='SimTK::det', container=('free', None),
+    kernels=[K25('det', 1, 'k25_det33', 'E (const Mat<3, 3, E, CS, RS> &)', 'SimTK::det({0})'),
+             K25('det', 1, 'k25_detSym33', 'E (const SymMat<3, E, RS> &)', 'SimTK::det({0})')])
+GROUPS['sm25i'] = dict(
+    source=SMM_H, tu='#include "SimTKcommon.h"', filter='SimTK::inverse', container=('free', None),
+    kernels=[K25('inverse', 1, 'k25_inv33', 'TInvert (const Mat<3, 3, E, CS, RS> &)', 'Mat33(SimTK::inverse({0}))', ret='M33'),
+             K25('inverse', 1, 'k25_invSym33', 'TInvert (const SymMat<3, E, RS> &)', 'SymMat33(SimTK::inverse({0}))', ret='SYM')])
